@@ -5,10 +5,10 @@ SPECS = os.path.join(os.path.dirname(os.path.dirname(os.path.abspath(__file__)))
 BASE = dict(MaxStmts=3, MaxDepth=3, MaxUnits=1, MaxVar=1, UnitKinds="ExhUnits", ConKinds="ExhCons", SpecKinds="ExhSpec",
             SimpleV="Set1", DeclV="Set1", UseV="Set1", FormatV="Set1", CompV="Set1", TbindV="Set1",
             NameChoices="Set01", EndForms="Set02", LabelStmts="FALSE", Contains="TRUE",
-            PKinds="KCmt", MaxEdits=1, InsSet="InsSmall", MinEdits=0, Randomised="FALSE", DumpMod=1, NRepl=17, RichOnly="FALSE", NeedStruct="FALSE", MaxRich="<- Unlimited")
+            PKinds="KCmt", MaxEdits=1, InsSet="InsSmall", MinEdits=0, Randomised="FALSE", DumpMod=1, NRepl=17, RichOnly="FALSE", NeedStruct="FALSE", MaxRich="<- Unlimited", NBrkPlaces=7, SplitUnits="FALSE")
 SIM = dict(MaxStmts=30, MaxDepth=5, MaxUnits=3, MaxVar=30, UnitKinds="AllUnits", ConKinds="AllCons", SpecKinds="AllSpec",
            SimpleV="SimpleAll", DeclV="DeclAll", UseV="UseAll", FormatV="FormatAll", CompV="CompAll", TbindV="TbindAll",
-           NameChoices="Set01", EndForms="Set012", LabelStmts="TRUE", Contains="TRUE", InsSet="InsAll", MinEdits=1, Randomised="TRUE", DumpMod=1, NRepl=17, RichOnly="FALSE", NeedStruct="FALSE", MaxRich="<- Unlimited")
+           NameChoices="Set01", EndForms="Set012", LabelStmts="TRUE", Contains="TRUE", InsSet="InsAll", MinEdits=1, Randomised="TRUE", DumpMod=1, NRepl=17, RichOnly="FALSE", NeedStruct="FALSE", MaxRich="<- Unlimited", NBrkPlaces=9, SplitUnits="FALSE")
 TABLE = {
     "Perturb_c11_quick": dict(BASE, UnitKinds="ExhUnits0", PKinds="KCmt", MaxEdits=1, DumpMod=16),
     "Perturb_c11_thorough": dict(BASE, UnitKinds="ExhUnits0", PKinds="KCmt", MaxEdits=1, DumpMod=2),
@@ -22,6 +22,9 @@ TABLE = {
                                SimpleV="StrSplitS", DeclV="StrSplitDecl", MaxRich="<- Unlimited", NameChoices="Set1", EndForms="Set02", DumpMod=3),
     "Perturb_c11s_thorough": dict(BASE, PKinds="KCmt", MaxEdits=2, MaxStmts=2, UnitKinds="SubOnly", ConKinds="Empty", SpecKinds="Empty", Contains="FALSE",
                                   SimpleV="StrSplitS", DeclV="StrSplitDecl", MaxRich="<- Unlimited", NameChoices="Set1", EndForms="Set02", DumpMod=3),
+    # two comment lines at one boundary (a plain one and a directive-form one, in both orders), in front of every kind of statement
+    "Perturb_c11p_quick": dict(BASE, PKinds="KCmt", MaxEdits=2, MinEdits=2, MaxStmts=2, MaxDepth=2, UnitKinds="SubOnly", SpecKinds="Empty", Contains="FALSE",
+                               NameChoices="Set0", EndForms="Set1", NCmtCls=7, DumpMod=1),
     "Perturb_c14_quick": dict(BASE, UnitKinds="ExhUnits0", PKinds="KCpp", MaxEdits=1, DumpMod=16),
     "Perturb_c14_thorough": dict(BASE, UnitKinds="ExhUnits0", PKinds="KCpp", MaxEdits=1, DumpMod=3),
     "Perturb_c14_sim": dict(SIM, PKinds="KCmtCpp", MaxEdits=5),
@@ -68,6 +71,12 @@ TABLE = {
                                        PKinds="KBrk", NameChoices="Set1", EndForms="Set1", Contains="FALSE", RichOnly="TRUE", DumpMod=1),
     "Perturb_c04v_type_thorough": dict(BASE, MaxStmts=3, MaxRich="= 1", MaxVar=30, UnitKinds="ModOnly", ConKinds="Empty", SpecKinds="AllSpec", CompV="CompAll", TbindV="TbindAll",
                                        PKinds="KBrk", NameChoices="Set1", EndForms="Set1", Contains="FALSE", RichOnly="TRUE", DumpMod=2),
+    # a continuation inside the prefix of a statement (behind its label, behind / inside 'name:'): labelled and named constructs and statements
+    "Perturb_c04l_quick": dict(BASE, UnitKinds="SubOnly", SpecKinds="Empty", LabelStmts="TRUE", PKinds="KBrk", NBrkPlaces=9, Contains="FALSE", EndForms="Set1", DumpMod=7),
+    "Perturb_c04l_thorough": dict(BASE, UnitKinds="SubOnly", SpecKinds="Empty", LabelStmts="TRUE", PKinds="KBrk", NBrkPlaces=9, Contains="FALSE", EndForms="Set02", DumpMod=1),
+    # every layout edit on every subroutine / function header variant (prefixes, argument lists, suffixes in both orders)
+    "Perturb_c04u_quick": dict(BASE, MaxStmts=1, MaxDepth=1, MaxRich="= 1", MaxVar=30, UnitKinds="SubFun", ConKinds="Empty", SpecKinds="Empty", PKinds="KLayout1", MaxEdits=1,
+                               NameChoices="Set0", EndForms="Set02", Contains="FALSE", DumpMod=1, SplitUnits="TRUE"),
     # C06: every catalogue variant (sweep: at most one non-default variant per program) with every single mutation of that statement
     "Perturb_c06_exec_quick": dict(BASE, MaxRich="= 1", MaxVar=30, UnitKinds="SubOnly", ConKinds="SweepCons", SpecKinds="Empty", SimpleV="SimpleAll", PKinds="KMut",
                                    NameChoices="Set1", EndForms="Set1", Contains="FALSE", RichOnly="TRUE", DumpMod=157),
@@ -94,7 +103,7 @@ for name, d in TABLE.items():
             L.append("  MaxRich " + v)
             continue
         L.append("  %s %s %s" % (k, "<-" if k in SUBST else "=", v))
-    L += ["  NCmtCls = %d" % ncmt, "  NCppForms = %d" % ncpp, "  NGarb = 8", "  DirectiveCls <- DirCls",
+    L += ["  NCmtCls = %d" % ncmt, "  NCppForms = %d" % ncpp, "  NGarb = 10", "  DirectiveCls <- DirCls",
           "INVARIANT WellNested", "INVARIANT GrammarInNest", "CONSTRAINT PDump"]
     open(os.path.join(SPECS, name + ".cfg"), "w").write("\n".join(L) + "\n")
 print(len(TABLE), "cfg files written")
